@@ -74,8 +74,18 @@ def plan_term(t, counts, idx):
     return f"(P {counts[idx]} {term})", idx + 1
 
 
-def rows_of(x):
-    return sorted(json.dumps(r) for ch in x["ok"] for r in ch["rows"]) if "ok" in x else None
+def rows_of(x, q=""):
+    """bag of result rows; for the statements whose answer legitimately depends on the order in which the scan hands out the row-sets (not
+    fixed on the disk engine) only the order-independent part is kept: the window executor computes a running aggregate over the arrival
+    order whatever PARTITION BY / ORDER BY say (outside the 20 properties), LIMIT without ORDER BY keeps whichever rows arrive first"""
+    if "ok" not in x:
+        return None
+    rows = [r for ch in x["ok"] for r in ch["rows"]]
+    if " over (" in q:
+        rows = [r[:1] for r in rows]
+    if " limit " in q and "order by" not in q:
+        rows = [["row"] for r in rows]
+    return sorted(json.dumps(r) for r in rows)
 
 
 def run(R, only=None):
@@ -100,11 +110,13 @@ def run(R, only=None):
     for b, o in zip(base, outs):
         n0 = len(b["setup"])
         if not isinstance(o, list) or len(o) < n0 + 2 or "ok" not in o[n0 + 1]:
-            R.property_fails(None, f"C15 the undisturbed run of `{b['q']}` failed: {json.dumps(o[-1] if isinstance(o, list) and o else o)[:200]}",
+            tail = json.dumps(o[-1] if isinstance(o, list) and o else o)
+            R.property_fails("KF_C17_subquery_not_executable" if ("not found from input" in tail or "Apply is not supported" in tail) else None,
+                             f"C15 the undisturbed run of `{b['q']}` failed: {tail[:200]}",
                              {"kind": "sql-script", "case": {"engine": b["engine"], **b["opts"], "steps": b["setup"] + [{"sql": b["q"]}]}})
             continue
         obs = o[n0 + 1]
-        b["rows"] = rows_of(obs)
+        b["rows"] = rows_of(obs, b["q"])
         b["ops"] = obs["ops"]
         b["after"] = rows_of(o[n0 + 2]) if b["target"] else None
         b["tree"] = None
@@ -155,8 +167,8 @@ def run(R, only=None):
             else:
                 stats["hit_err"] += 1
         else:
-            if rows_of(x) != b["rows"]:
-                R.property_fails(None, f"C15 {what}: the statement returned Ok with {len(rows_of(x))} rows instead of the {len(b['rows'])} rows of the undisturbed run", rep)
+            if rows_of(x, b["q"]) != b["rows"]:
+                R.property_fails(None, f"C15 {what}: the statement returned Ok with {len(rows_of(x, b['q']))} rows instead of the {len(b['rows'])} rows of the undisturbed run", rep)
             elif b["target"] and after != b["after"]:
                 R.property_fails(None, f"C15 {what}: the statement reported success but table {b['target']} holds {len(after)} rows, {len(b['after'])} expected", rep)
             elif hit and not b["early"]:
